@@ -1223,6 +1223,14 @@ V('hashleftjoin',
 V('hashlookupjoin',
   lambda e, w: e.hashlookupjoin(e.wrap(w.s[0]), e.cut(w.s[1], 'a', 'c'),
                                 key='a'))
+V('selectop',
+  lambda e, w: e.selecteq(w.s[0], 'a', 1, complement=True),
+  lambda e, w: e.selectin(w.s[0], 'a', (1, 2), complement=True),
+  lambda e, w: e.selectnone(w.s[0], 'a', complement=True),
+  lambda e, w: e.selectrangeclosed(w.s[0], 'a', 0, 2, complement=True),
+  lambda e, w: e.selectcontains(w.s[0], 'b', 'x', complement=True),
+  lambda e, w: e.selecttrue(w.s[0], 'a', complement=True),
+  lambda e, w: e.selectisinstance(w.s[0], 'd', (str, int), complement=True))
 V('hashcomplement',
   lambda e, w: e.hashcomplement(e.wrap(w.s[0]), e.wrap(w.s[1])))
 
